@@ -95,8 +95,11 @@ def r2_edge_agree(c, facts):
     edges = P.call_blocks(fn, 'add_edge')
     c.floor(R, 'graph.add_edge sites', len(edges), 2)
     for n, (b, t) in enumerate(edges):
-        a = MF.slice_back(fn, t['args'][1]['l'], idx) if 'l' in t['args'][1] else {'calls': []}
-        z = MF.slice_back(fn, t['args'][2]['l'], idx) if 'l' in t['args'][2] else {'calls': []}
+        # a node index is the result of deps.get / graph.add_node (the import) or of the work-list pop (the importer):
+        # the slice stops at those calls (what the *key* of the lookup derives from is not the question here)
+        stop = lambda name: P.strip(name).split('::')[-1] in ('get', 'add_node', 'pop')
+        a = MF.slice_back(fn, t['args'][1]['l'], idx, stop_at=stop) if 'l' in t['args'][1] else {'calls': []}
+        z = MF.slice_back(fn, t['args'][2]['l'], idx, stop_at=stop) if 'l' in t['args'][2] else {'calls': []}
         an = {x.split('::')[-1] for x, _, _ in a['calls']}
         zn = {x.split('::')[-1] for x, _, _ in z['calls']}
         src_import = ('get' in an or 'add_node' in an) and 'pop' not in an
@@ -163,8 +166,15 @@ def r3_sorted(c, facts):
 
 def r4_invalid(c, facts):
     R = c.rule('C10.R4', 'INVALID: an invalid import target is reported (Kind::InvalidModule) and never loaded')
-    fn = c.anchor(R, L)
+    top = c.anchor(R, L)
+    fn = top
     iv = P.call_blocks(fn, 'module::Loader::is_valid')
+    if not iv:
+        for cl in facts.closures_of(top):
+            if P.call_blocks(cl, 'module::Loader::is_valid'):
+                fn = cl
+                iv = P.call_blocks(cl, 'module::Loader::is_valid')
+                break
     if not iv:
         c.bad(R, 'is_valid-not-consulted', 'module::load no longer asks the loader whether an import target is valid')
         return
@@ -194,6 +204,14 @@ def r4_invalid(c, facts):
     else:
         c.ok(R, {'invalid target': 'cannot reach loader.load'})
     pushes = [x for x, tt in P.call_blocks(fn, 'Vec::push') if fn.dominates(t_t, x)]
+    if fn is not top:
+        # iterator form: the closure yields Ok(target) on the true edge and Err on the false edge; the parent collects
+        oks = [x for x in P.ok_blocks(fn) if x in fn.reachable_from(t_t)]
+        bad_ok = [x for x in P.ok_blocks(fn) if x in fn.reachable_from(f_t[0], avoid=[t_t])]
+        if oks and not bad_ok and (P.call_blocks(top, 'Iterator::collect') or P.call_blocks(top, 'FromIterator::from_iter')):
+            pushes = oks
+        else:
+            pushes = []
     if pushes:
         c.ok(R, {'valid target': 'queued for loading on the true edge'})
     else:
@@ -205,6 +223,12 @@ def r5_join_agree(c, facts):
     shapes = {}
     for q in (L, 'oal_compiler::resolve::declare_import'):
         fn = c.anchor(R, q)
+        outer = None
+        if not P.call_blocks(fn, 'Locator::join'):
+            for cl in facts.closures_of(fn):
+                if P.call_blocks(cl, 'Locator::join'):
+                    outer, fn = fn, cl
+                    break
         idx = MF.defs_index(fn)
         joins = P.call_blocks(fn, 'Locator::join')
         if not joins:
@@ -214,6 +238,14 @@ def r5_join_agree(c, facts):
         sl = MF.slice_back(fn, t['args'][1]['l'], idx, through_calls=False) if 'l' in t['args'][1] else {'calls': []}
         names = sorted({x.split('::')[-1] for x, _, _ in sl['calls']} - {'deref', 'as_ref', 'as_str', 'borrow'})
         base = MF.slice_back(fn, t['args'][0]['l'], idx) if 'l' in t['args'][0] else {'calls': [], 'args': set()}
+        if outer is not None:
+            par, ops = MF.upvar_operands(facts, fn, base, idx)
+            if par is not None:
+                pidx = MF.defs_index(par)
+                for op in ops:
+                    if 'l' in op:
+                        b2 = MF.slice_back(par, op['l'], pidx)
+                        base = {'calls': base['calls'] + b2['calls'], 'args': base.get('args', set())}
         bnames = sorted({x.split('::')[-1] for x, _, _ in base['calls']} - {'deref', 'clone', 'as_ref', 'borrow'})
         shapes[q] = (names, bnames)
         if q.endswith('declare_import'):
